@@ -284,6 +284,13 @@ impl CommitKey {
         let mut powers_of_g = Vec::with_capacity(len);
 
         for chunk in bytes[u64::SIZE..].chunks_exact(G1Affine::RAW_SIZE) {
+            // The trailing byte of a raw point is its infinity flag. Anything
+            // other than 0 or 1 is not a valid encoding and would break the
+            // boolean invariant of the flag downstream.
+            if chunk[G1Affine::RAW_SIZE - 1] > 1 {
+                return Err(Error::PointMalformed);
+            }
+
             // Safety: raw-byte chunk size is checked by `chunks_exact`.
             let point = unsafe { G1Affine::from_slice_unchecked(chunk) };
             let point_is_valid =
